@@ -18,6 +18,12 @@ Theorem C16_order : forall (S : Type) stmts k ls s, run S ls (init S stmts k) = 
 Proof. exact order. Qed.
 Print Assumptions C16_order.
 
+(* ... and the same when the acknowledgement flag and the stored error are overwritten with arbitrary values at arbitrary
+   moments: delivery order does not depend on any race between write() and the reader callback *)
+Theorem C16_order_racy : forall (S : Type) stmts k ls s, rrun S ls (init S stmts k) = Some s ->
+  received S s ++ queue S s = firstn (calls S s) stmts.
+Proof. exact order_racy. Qed.
+
 (* SYNCHRONY and DISCONNECT: from a quiescent start, for any acknowledgement latency, any unsolicited status lines and
    error replies at any position: completed writes never outnumber handled terminators, and whenever no write() is in
    progress everything written has been sent and acknowledged (nothing queued, nothing pending in the device, no
